@@ -107,6 +107,7 @@ static std::vector<int> lane_weights(const std::string &lane, Rng &r) {
     w_set(w, create_core, 6);
     w[OP_create_block] = 4;
     w[OP_reopen] = 6; w[OP_clock] = 2; w[OP_use_stale] = 2; w[OP_keep] = 1;
+    if (lane == "tree" || lane == "names" || lane == "durable" || lane == "delete") w[OP_second_view] = 4;
 
     if (lane == "array") {
         w_set(w, arrdata, 14); w[OP_create_array] = 18; w[OP_arr_write] = 30; w[OP_arr_read] = 24; w[OP_reopen] = 10; w[OP_delete_array] = 2;
